@@ -6,6 +6,18 @@ BASELINE = ("cd /repo && cargo nextest run --workspace --no-fail-fast --tool-con
             "--profile pb --test-threads 8 --offline")
 TECH = "contract-based deductive verification: Verus (Z3) on functions of /repo extracted mechanically on every run"
 CLAIMED = {
+ "C18": dict(
+   text=("Verus discharges, on the real text of ConfigLoader::load, that the value it returns is extract(merge(merge(merge(empty, "
+         "yaml(dir/base.yml)), yaml(dir/<profile>.yml)), env(PX_, split __, ignore [PROFILE]))) with dir and profile as documented, and "
+         "on the real default method ConfigProfile::load that the profile is parsed from PX_PROFILE and that a missing or unparsable one "
+         "is an error; a lemma derives the per-key precedence env > profile > base from figment's single documented law (later merge "
+         "wins); the closed term PX_PROFILE.strip_prefix(PX_) == PROFILE is decided by evaluation (rustc). Thorough replays native tests "
+         "with real files and environment variables."),
+   note=("Modular: figment (Yaml::file, Env::prefixed/split/ignore, merge, extract), PathBuf::join, format!, std::env::var are an "
+         "uninterpreted term algebra with assumed contracts (trusted_base). Not decided: figment's own behaviour (e.g. a missing profile "
+         "FILE is treated as empty by Yaml::file)."),
+   design="§3/C18",
+   technique="contract-based deductive verification: Verus (Z3) on mechanically extracted functions + rustc evaluation of one closed term"),
  "C14": dict(
    text=("Verus discharges, on the real text of BufferedBody::_extract_with_limit and ::extract (generic over every body, for every "
          "chunking, every limit and every Content-Length header, unbounded), that Ok is exactly the client's bytes and at most the limit, "
@@ -66,7 +78,6 @@ NA = {
  "C15": "decoding lives in serde/percent-encoding/serde_html_form; pavex part is macro-generated serde glue generic over every Deserialize (DESIGN §3/C15)",
  "C16": "concurrency + liveness over threads/tokio/sockets; neither verifier supports it on this code (DESIGN §3/C16)",
  "C17": "measured: Verus rejects the recursive Type algebra's text (iterator adapters, let-chains, derived recursive eq), Kani does not converge on one concrete shape pair (DESIGN §3/C17)",
- "C18": "not yet built in this tree: planned modular claim — see DESIGN §3/C18",
  "C19": "not yet built in this tree: planned tier-2 partial claim (API → schema) — see DESIGN §3/C19",
  "C20": "measured: string iterators (str::split, chars().rev().peekable(), IndexSet<char>, syn) — Kani does not converge at 2–5 chars, Verus has no str/iterator reasoning (DESIGN §3/C20)",
 }
